@@ -343,6 +343,76 @@ type chain struct {
 	hasDticks bool
 }
 
+// runReports: a receiver is given a SEQUENCE of sender reports - RTP times running forward across the 2^32 wrap (so that
+// later reports carry numerically smaller RTP times), with clock steps of the writer in between, now and then a
+// duplicate or a report that really is older - and is then asked for the NTP time of a packet. The mapping must be the
+// one of the most recent report: identical to a fresh receiver that has seen that report only.
+func runReports(ctx *hx.Ctx, r *hx.Rand) {
+	rate := hx.Pick(r, 8000, 44100, 48000, 90000, 90000)
+	n := r.Range(1, 6)
+	rtpT := uint32(r.U64())
+	switch r.Intn(3) {
+	case 0:
+		rtpT = uint32(4294967296 - uint64(r.Intn(20*rate))) // the wrap is a few seconds away
+	case 1:
+		rtpT = uint32(r.Intn(10 * rate))
+	}
+	ntpNs := base.UnixNano() + int64(r.Intn(1000000))*1000
+	type rep struct {
+		rtp uint32
+		ntp uint64
+	}
+	var reps []rep
+	for i := 0; i < n; i++ {
+		reps = append(reps, rep{rtpT, ntp.Encode(time.Unix(0, ntpNs))})
+		step := r.Range(1, 15) * rate // 1..15 s later
+		switch r.Intn(8) {
+		case 0:
+			step = 0 // duplicate report
+		case 1:
+			step = -r.Range(1, 5) * rate // a report that is older (reordered RTCP)
+		}
+		rtpT += uint32(int32(step))
+		ntpNs += int64(step) * 1000000000 / int64(rate)
+		if r.Intn(3) == 0 {
+			ntpNs += int64(r.Range(-3000, 3000)) * 1000000 // the writer's clock was corrected
+		}
+	}
+	last := reps[len(reps)-1]
+	ts := last.rtp + uint32(int32(r.Range(-10*rate, 10*rate)))
+	rr := &rtpreceiver.Receiver{ClockRate: rate}
+	for _, x := range reps {
+		rr.ProcessSenderReport(&rtcp.SenderReport{SSRC: 7, RTPTime: x.rtp, NTPTime: x.ntp}, base)
+	}
+	at, ok := rr.PacketNTP(ts)
+	ref := &rtpreceiver.Receiver{ClockRate: rate}
+	ref.ProcessSenderReport(&rtcp.SenderReport{SSRC: 7, RTPTime: last.rtp, NTPTime: last.ntp}, base)
+	want, _ := ref.PacketNTP(ts)
+	var c, o hx.L
+	c.N(6).I(rate).N(uint64(ts))
+	for _, x := range reps {
+		c.N(uint64(x.rtp)).N(x.ntp)
+	}
+	if ok {
+		o.N(1).Z(at.UnixNano())
+	} else {
+		o.N(0)
+	}
+	idx := ctx.Corr(c.String(), o.String())
+	ctx.Eval()
+	wrapped := false
+	for i := 1; i < len(reps); i++ {
+		if reps[i].rtp < reps[i-1].rtp {
+			wrapped = true
+		}
+	}
+	ctx.Nontrivial(fmt.Sprintf("reports n=%d wrapped=%v rate=%d", n, wrapped, rate))
+	if !ok || !at.Equal(want) {
+		ctx.Failf(idx, "stale-sender-report", c.String(), "after %d sender reports (last: RTP %d) PacketNTP(%d) = %v (available %v); a receiver that has seen the last report only says %v: the mapping does not follow the most recent report",
+			n, last.rtp, ts, at.UTC(), ok, want.UTC())
+	}
+}
+
 func runChain(ctx *hx.Ctx, ch chain) {
 	var calls int32
 	s0 := base
@@ -533,5 +603,9 @@ func main() {
 		runChain(ctx, genChain(r))
 	}
 	ctx.Kind("sender report -> PacketNTP")
+	for i := 0; i < ctx.Budget(3000, 100000); i++ {
+		runReports(ctx, r)
+	}
+	ctx.Kind("sender report sequence -> PacketNTP")
 	ctx.Extra("round53_validated_operands", 2*nn+3*nc)
 }
